@@ -126,13 +126,18 @@ def cli_cases(draw, tier="quick"):
         case["archive"] = ar
         case["codec"] = draw(st.sampled_from([None, None, None, "gzip", "xz", "zstd", "bzip2"]))
         # option subsets change which code sees the (damaged) entries: no xattr writer with -x, another root with -r, ...
-        case["t2s_opts"] = draw(st.lists(st.sampled_from(["-x", "-x", "-k", "-s", "-e", "-T", "-S", "-r:d", "-r:a", "-E:*a*", "-j:1"]), unique=True, max_size=4))
+        if draw(st.sampled_from([False, False, True])):
+            # an explicit root entry that carries attributes of its own (xattrs, odd mode): handled by code of its own in tar2sqfs
+            ar["entries"] = [e for e in ar["entries"] if tarimg.canon(e["name"]) not in (b"", None)]
+            ar["entries"].insert(0, dict(name=draw(st.sampled_from([b"./", b".", b"/"])), type="dir", mode=0o1775, uid=3, gid=4, mtime=5,
+                                        xattrs={b"user.root": b"attr"} if draw(st.booleans()) else {}, enc=dict(fmt="ustar", num="octal", ostyle=0, xattrfmt="schily")))
+        case["t2s_opts"] = draw(st.lists(st.sampled_from(["-x", "-x", "-x", "-k", "-s", "-e", "-T", "-S", "-r:d", "-r:a", "-E:*a*", "-j:1"]), unique=True, max_size=4))
         case["t2s_opts"] = [y for x in case["t2s_opts"] for y in x.split(":")]
         if what == "damage":
             case["edits"] = draw(st.lists(st.tuples(st.sampled_from(["flip", "zero", "ff", "splice", "dup", "del", "num", "mrec", "mrec", "mswap"]), st.floats(0, 1), st.integers(0, 255),
                                                      st.integers(1, 64)), min_size=1, max_size=4))
         else:
-            case["cut"] = draw(st.floats(0, 1))
+            case["cut"] = draw(st.one_of(st.floats(0, 1), st.floats(0, 1), st.just(1.0)))      # 1.0: the complete archive
     elif what.startswith("graph"):
         nn = draw(st.sampled_from([2, 3, 3, 4]))
         kinds = ["file", "dir", "absent"] + [("link", t) for t in range(nn)]
@@ -433,6 +438,63 @@ def exhaustive_truncation(args):
     return idx, n, len(a), bad
 
 
+T2S_OPTS = [[], ["-x"], ["-k"], ["-s"], ["-e"], ["-T"], ["-S"], ["-r", "d"], ["-r", "d", "-S"], ["-r", "nonexistent"], ["-E", "d/*"], ["-E", "*"],
+            ["-x", "-k"], ["-x", "-r", "d"], ["-x", "-e", "-T"], ["-d", "uid=5,gid=6,mode=0700,mtime=7"], ["-x", "-d", "mode=0755"], ["-j", "1", "-Q", "1"]]
+
+
+def option_matrix(args):
+    """valid inputs x every option set: a well-formed archive / pack file must never crash a packer, whatever is switched on or off"""
+    part, nparts = args
+    t2s = vcommon.tool("asan", "tar2sqfs")
+    gen = vcommon.tool("asan", "gensquashfs")
+    f = lambda name, data=b"data", **kw: dict(dict(name=name, type="file", mode=0o644, uid=1, gid=2, mtime=3, xattrs={}, data=data, enc=dict(fmt="ustar", xattrfmt="schily")), **kw)
+    rootx = lambda nm, xf: tarimg.encode_archive([dict(name=nm, type="dir", mode=0o1775, uid=3, gid=4, mtime=5, xattrs={b"user.root": b"r", b"security.x": b"\0\1"},
+                                                          enc=dict(fmt="ustar", xattrfmt=xf)),
+                                                     dict(name=b"d/", type="dir", mode=0o755, uid=0, gid=0, mtime=1, xattrs={b"user.d": b"1"}, enc=dict(fmt="ustar", xattrfmt=xf)),
+                                                     f(b"d/f", b"x" * 700, xattrs={b"user.f": b"2"}),
+                                                     dict(name=b"d/h", type="hlink", mode=0o644, uid=0, gid=0, mtime=1, xattrs={}, linkname=b"d/f", enc=dict(fmt="ustar"))])
+    archives = sample_archives() + [rootx(b"./", "schily"), rootx(b".", "libarchive"), rootx(b"/", "schily"), rootx(b"d/", "schily")]
+    jobs = [("t2s", ai, oi) for ai in range(len(archives)) for oi in range(len(T2S_OPTS))]
+    packs = [VALID_PACK, b"dir /a 0755 0 0\nslink /a/l 0777 0 0 x\nnod /a/n 0600 0 0 c 1 2\npipe /p 0644 0 0\n", b"dir /only 0755 0 0\n", b""]
+    auxs = [None, ("-S", VALID_SORT), ("-S", b""), ("-S", b"# nothing\n"), ("-A", VALID_XATTR), ("-A", b""), ("-S", b"0 [dont_compress] *\n")]
+    jobs += [("gen", pi, ai) for pi in range(len(packs)) for ai in range(len(auxs))]
+    bad = []
+    n = 0
+    with Scratch("c07m") as sc:
+        out = os.path.join(sc, "o.sqfs")
+        os.makedirs(os.path.join(sc, "in"), exist_ok=True)
+        with open(os.path.join(sc, "in", "x"), "wb") as fh:
+            fh.write(b"file contents")
+        for k, (kind, a, b) in enumerate(jobs):
+            if k % nparts != part:
+                continue
+            if kind == "t2s":
+                r = vcommon.run([t2s, "-q", "-c", "gzip"] + T2S_OPTS[b] + [out], stdin=archives[a], timeout=30)
+                what = "tar2sqfs %s on a well-formed archive (#%d)" % (" ".join(T2S_OPTS[b]) or "(no options)", a)
+            else:
+                lf = os.path.join(sc, "list.txt")
+                with open(lf, "wb") as fh:
+                    fh.write(packs[a])
+                cmd = [gen, "-q", "-c", "gzip", "-F", lf, "-D", sc]
+                if auxs[b]:
+                    ax = os.path.join(sc, "aux.txt")
+                    with open(ax, "wb") as fh:
+                        fh.write(auxs[b][1])
+                    cmd += [auxs[b][0], ax]
+                r = vcommon.run(cmd + [out], timeout=30)
+                what = "gensquashfs on pack file #%d with %s" % (a, "no extra file" if not auxs[b] else "%s file #%d" % (auxs[b][0], b))
+            n += 1
+            try:
+                judge(r, out, what)
+            except Violation as v:
+                bad.append((dict(what="matrix", kind=kind, a=a, b=b), v.what))
+                if len(bad) >= 2:
+                    break
+            if os.path.exists(out):
+                os.unlink(out)
+    return n, bad
+
+
 def exhaustive_graphs(args):
     """all 6^3 = 216 hard-link graphs over three names (tar and pack form)"""
     form, part, nparts = args
@@ -482,6 +544,7 @@ def main(tier, seed, scale=1.0):
             with mp.get_context("fork").Pool(4) as p:
                 xout["t"] = p.map(exhaustive_truncation, [(i, seed) for i in range(2 if tier == "quick" else 8)], chunksize=1)
                 xout["g"] = p.map(exhaustive_graphs, [(f, i, 2) for f in ("tar", "pack") for i in range(2)], chunksize=1)
+                xout["m"] = p.map(option_matrix, [(i, 4) for i in range(4)], chunksize=1)
         xth = threading.Thread(target=xrun)
         xth.start()
         w1 = os.path.join(sc, "w1")
@@ -520,6 +583,11 @@ def main(tier, seed, scale=1.0):
             for cut, what in bad[:1]:
                 case = dict(what="xtrunc", idx=idx, seed=seed, cut=cut)
                 res.violations.append((what, vcommon.save_replay(PROP, case, what)))
+        for cnt, bad in xout.get("m", []):
+            res.evaluations += cnt
+            res.add_class("option_matrix", cnt)
+            for case, what in bad[:1]:
+                res.violations.append((what, vcommon.save_replay(PROP, case, what)))
         for form, cnt, bad in xout.get("g", []):
             res.evaluations += cnt
             res.add_class("exhaustive_graphs_" + form, cnt)
@@ -548,6 +616,15 @@ def replay(path):
             idx, n, total, bad = exhaustive_truncation((d["case"]["idx"], d["case"]["seed"]))
             for cut, what in bad[:1]:
                 res.violations.append((what, path))
+            return res
+        if d["case"].get("what") == "matrix":
+            res = Result(PROP)
+            for part in range(4):
+                n, bad = option_matrix((part, 4))
+                res.evaluations += n
+                for case, what in bad:
+                    if (case["kind"], case["a"], case["b"]) == (d["case"]["kind"], d["case"]["a"], d["case"]["b"]):
+                        res.violations.append((what, path))
             return res
         return vcommon.replay_case(PROP, check_case, path)
     g = os.path.join(vbuild.REPO, "bin/gensquashfs/src") + "/"
